@@ -25,9 +25,11 @@ ONE = 'one'
 OPEN_STATEMENTS = [
     'weight_two_segment_code valid on its whole domain: FALSE on the current tree (known finding C09-w2seg-decoder); '
     'proved on 13 of the 15 vectors (weight_two_segment_code_valid_partial)',
-    'extractor_sound / dissolve_sound / binary_code_transform_sound (action of the transformed operator on encoded states) and '
-    'bct_jw_eq_jw / bct_bk_eq_bk: not proved; covered by the transform stream (Model correspondence + Spec oracle on every '
-    'encoded domain state + term-for-term comparison with jordan_wigner / bravyi_kitaev)',
+    'binary_code_transform_sound (action of the transformed operator on encoded states) and bct_jw_eq_jw / bct_bk_eq_bk: not '
+    'proved; extractor_sound / dissolve_sound are proved for the tolerance-free Model (the regime where __isub__ drops a '
+    'non-zero coefficient below 1e-8, monomials of more than 27 variables, is excluded); the whole transform is covered by the '
+    'transform stream (Model correspondence + Spec oracle on every encoded domain state + term-for-term comparison with '
+    'jordan_wigner / bravyi_kitaev)',
     'soundness of the constructor BinaryPolynomial(list of tuples) (BinaryPolynomial(str) is proved: string_constructor_sound) and '
     'Shaped for the built-in constructors other than through init_shaped: covered by the poly-programs / codes streams only',
 ]
